@@ -179,7 +179,7 @@ def judge(ctx, vectors, prefix):
     rej = ctx.validate_vectors("Trace_Disc", vectors + cans)
     n = len(vectors)
     if len({i for i, _ in rej if i >= n}) != len(cans):
-        raise MachineryError("Trace_Disc accepted a canary")
+        ctx.defer_machinery("Trace_Disc accepted a canary")
     ctx.extra["canaries_rejected"] = len(cans)
     other = {}
     for i, clause in rej:
